@@ -1,0 +1,16 @@
+//go:build verif
+
+package pilosa
+
+// VerifLifecycleConfirmDown, when set, answers confirmNodeDown (the HTTP probe
+// of a node reported as having left, ten attempts one second apart while the
+// coordinator holds its lock) for the /verif harness: down = the probe found
+// the node down; handled = false falls through to the real probe.
+var VerifLifecycleConfirmDown func(uri URI) (down, handled bool)
+
+func verifLifecycleConfirmDown(uri URI) (down, handled bool) {
+	if h := VerifLifecycleConfirmDown; h != nil {
+		return h(uri)
+	}
+	return false, false
+}
